@@ -142,7 +142,8 @@ fn run_level(ctx: &mut Ctx, rng: &mut ChaCha8Rng, cv: &str, level: &str, n: usiz
     for op in ops.iter() {
         let mut cases: Vec<(Vec<El>, El, usize, String)> = vec![];
         let powers: Vec<usize> = if op.power { vec![0, 1, 2, 3, 4, 5, 6, 7, 11, 12, 13, 14] } else { vec![0] };
-        for rep in 0..reps {
+        let reps_op = if op.arity == 1 && !op.power { reps * 3 } else { reps };
+        for rep in 0..reps_op {
             for c1 in 0..nclasses {
                 let classes2: Vec<usize> = if op.arity == 2 {
                     if rep == 0 { (0..nclasses).collect() } else { vec![4, 5] }
@@ -204,9 +205,94 @@ macro_rules! op {
     };
 }
 
+/// Field laws and the defining property of the Frobenius map, checked directly on the real types
+/// (the oracle of "target-group arithmetic is that of the degree-12 extension"): a failure is a
+/// concrete failing input of the property, whatever the model says.
+fn field_laws<F: Field>(
+    ctx: &mut Ctx,
+    rng: &mut ChaCha8Rng,
+    name: &str,
+    n: usize,
+    p: &BigUint,
+    degree: usize,
+    make: &dyn Fn(&[BigUint]) -> F,
+    show: &dyn Fn(&F) -> El,
+    frob: &dyn Fn(&F, usize) -> F,
+    samples: usize,
+) {
+    let p_limbs: Vec<u64> = p.to_u64_digits();
+    let fail = |ctx: &mut Ctx, law: &str, args: Vec<&F>| {
+        let detail: Vec<String> = args.iter().map(|a| fmt_el(&show(a))).collect();
+        ctx.oracle_fail(&format!("tower:{name}:{law}"), &format!("{name}: field law `{law}` fails"), serde_json::json!({"type": name, "law": law, "operands": detail}));
+    };
+    for i in 0..samples {
+        let (ea, _) = operand(rng, p, n, i);
+        let (eb, _) = operand(rng, p, n, 4 + (i % 2));
+        let (ec, _) = operand(rng, p, n, i / 2 + 3);
+        let (a, b, c) = (make(&ea), make(&eb), make(&ec));
+        ctx.count(&format!("field-laws:{name}"));
+        if a * b != b * a {
+            fail(ctx, "a*b = b*a", vec![&a, &b]);
+        }
+        if (a * b) * c != a * (b * c) {
+            fail(ctx, "(a*b)*c = a*(b*c)", vec![&a, &b, &c]);
+        }
+        if a * (b + c) != a * b + a * c {
+            fail(ctx, "a*(b+c) = a*b + a*c", vec![&a, &b, &c]);
+        }
+        if a.square() != a * a {
+            fail(ctx, "square(a) = a*a", vec![&a]);
+        }
+        if a.double() != a + a || a - a != F::ZERO || a + (-a) != F::ZERO || a * F::ONE != a {
+            fail(ctx, "additive structure / one", vec![&a]);
+        }
+        match Option::<F>::from(a.invert()) {
+            Some(inv) => {
+                if bool::from(a.is_zero()) || a * inv != F::ONE {
+                    fail(ctx, "a * invert(a) = 1", vec![&a]);
+                }
+            }
+            None => {
+                if !bool::from(a.is_zero()) {
+                    fail(ctx, "invert(a) is Some for a != 0", vec![&a]);
+                }
+            }
+        }
+        // Frobenius: frobenius_map(1) is the p-th power; powers compose; order divides the degree
+        let f1 = frob(&a, 1);
+        if f1 != a.pow_vartime(&p_limbs) {
+            fail(ctx, "frobenius_map(1)(a) = a^p", vec![&a]);
+        }
+        let (j, k) = (i % 7, (i / 3) % 9);
+        if frob(&frob(&a, j), k) != frob(&a, j + k) {
+            fail(ctx, "frobenius_map(j) o frobenius_map(k) = frobenius_map(j+k)", vec![&a]);
+        }
+        if frob(&a, degree) != a || frob(&a, 0) != a {
+            fail(ctx, "frobenius_map(degree) = id", vec![&a]);
+        }
+        if frob(&(a * b), k) != frob(&a, k) * frob(&b, k) {
+            fail(ctx, "frobenius_map(k)(a*b) = frobenius_map(k)(a) * frobenius_map(k)(b)", vec![&a, &b]);
+        }
+    }
+}
+
+fn run_field_laws(ctx: &mut Ctx) {
+    let mut rng = ctx.rng("field-laws");
+    let samples = if ctx.quick() { 24 } else if ctx.search() { 300 } else { 120 };
+    let p = modulus::<Fq>();
+    field_laws::<Fq2>(ctx, &mut rng, "bn256::Fq2", 2, &p, 2, &|e| bn2(e), &|a| bn2_out(a), &|a, k| { let mut x = *a; x.frobenius_map(k); x }, samples);
+    field_laws::<Fq6>(ctx, &mut rng, "bn256::Fq6", 6, &p, 6, &|e| bn6(e), &|a| bn6_out(a), &|a, k| { let mut x = *a; x.frobenius_map(k); x }, samples);
+    field_laws::<Fq12>(ctx, &mut rng, "bn256::Fq12", 12, &p, 12, &|e| bn12(e), &|a| bn12_out(a), &|a, k| { let mut x = *a; x.frobenius_map(k); x }, samples);
+    let p = modulus::<Fp>();
+    field_laws::<Fp2>(ctx, &mut rng, "bls12_381::Fp2", 2, &p, 2, &|e| bls2(e), &|a| bls2_out(a), &|a, k| { let mut x = *a; x.frobenius_map(k); x }, samples);
+    field_laws::<Fp6>(ctx, &mut rng, "bls12_381::Fp6", 6, &p, 6, &|e| bls6(e), &|a| bls6_out(a), &|a, k| { let mut x = *a; x.frobenius_map(k); x }, samples);
+    field_laws::<Fp12>(ctx, &mut rng, "bls12_381::Fp12", 12, &p, 12, &|e| bls12(e), &|a| bls12_out(a), &|a, k| { let mut x = *a; x.frobenius_map(k); x }, samples);
+}
+
 pub fn run(ctx: &mut Ctx) {
+    run_field_laws(ctx);
     let mut rng = ctx.rng("tower");
-    let reps = if ctx.quick() { 1 } else { 4 };
+    let reps = if ctx.quick() { 1 } else if ctx.search() { 2 } else { 4 };
 
     // ------------------------------------------------------------------ BN254
     let p = modulus::<Fq>();
